@@ -54,6 +54,19 @@ def run(module, cfg, env=None, workers=16, tag=None, xss="256m", heap="8g", time
                          text=True, errors="replace")
     tail = []
     ok = False
+    # watchdog: TLC that neither ends nor prints (e.g. a heap in GC thrash) must not hang the check
+    import threading
+    killed = []
+
+    def _kill():
+        killed.append(True)
+        try:
+            p.kill()
+        except Exception:
+            pass
+    timer = threading.Timer(timeout, _kill)
+    timer.daemon = True
+    timer.start()
     try:
         for line in p.stdout:
             if line.startswith('"@@'):
@@ -79,11 +92,11 @@ def run(module, cfg, env=None, workers=16, tag=None, xss="256m", heap="8g", time
                 res.depth = int(m.group(1))
             if "No error has been found" in line:
                 ok = True
-            if time.time() - t0 > timeout:
-                p.kill()
-                raise TLCError("TLC timeout after %ds" % timeout)
         p.wait()
+        if killed:
+            raise TLCError("TLC killed by the watchdog after %ds" % timeout)
     finally:
+        timer.cancel()
         if p.poll() is None:
             p.kill()
         shutil.rmtree(meta, ignore_errors=True)
